@@ -904,7 +904,7 @@ def parse (bytes : List UInt8) : ParseOutcome :=
     if s.lx.err then .err
     else match r with
       | some a => .ok a
-      | none => .err     -- `Parse` would return `(nil, nil)`; cannot happen (no result ⇒ an error was recorded)
+      | none => .err     -- `Parse` would return `(nil, nil)`: unreachable, `ParseLemmas.run_none_error`
   | .syn => .err
   | .panic => .panic
   | .fuel => .err
